@@ -615,14 +615,7 @@ func buildDomain(thorough bool) domain {
 		return domain{hist: histories(al, 3, true, true), variants: []variant{{"fresh", 0, false}, {"same", 2, false}},
 			desc: "all histories of 1..3 enabled steps over the alphabet {create(S,slot in {2,4},value in node|separate segment), add(S): commit 5 fresh keys, updrem(S): commit updating every 3rd+1 and removing every 3rd item, remove(S): RemoveBtree} for S in {S1,S2}; the first created store is S1 (name symmetry) and S2 is created only with the configuration complementary to the first step's (other slot length and other value placement)"}
 	}
-	var vs []variant
-	for _, w := range []bool{false, true} {
-		for _, m := range []string{"fresh", "same"} {
-			for _, f := range []int{0, 1, 2} {
-				vs = append(vs, variant{m, f, w})
-			}
-		}
-	}
+	vs := []variant{{"fresh", 0, false}, {"same", 2, false}, {"fresh", 2, false}, {"same", 0, false}, {"fresh", 1, false}, {"fresh", 0, true}, {"same", 2, true}}
 	hist := histories(al, 3, true, false)
 	seen := map[string]bool{}
 	for _, h := range hist {
@@ -663,8 +656,13 @@ func main() {
 		jobs = append(jobs, fmt.Sprint(i))
 	}
 	dl := 10 * time.Minute
+	soft := 5 * time.Minute
 	if run.Thorough() {
-		dl = 60 * time.Minute
+		dl = 30 * time.Minute
+		soft = 13 * time.Minute
+	}
+	if os.Getenv("C27_DEADLINE") == "" {
+		os.Setenv("C27_DEADLINE", fmt.Sprint(time.Now().Add(soft).Unix()))
 	}
 	nproc := 0
 	fmt.Sscan(os.Getenv("C27_NPROC"), &nproc)
@@ -672,8 +670,19 @@ func main() {
 	finishEvidence(run, dom)
 }
 
+// pastDeadline: the parent passes an absolute soft deadline to its workers (C27_DEADLINE, unix seconds).
+func pastDeadline() bool {
+	var dl int64
+	fmt.Sscan(os.Getenv("C27_DEADLINE"), &dl)
+	return dl > 0 && time.Now().Unix() > dl
+}
+
 func (c *checker) history(dom domain, h []Step) {
 	run := c.run
+	if pastDeadline() {
+		run.NotExhaustive(fmt.Sprintf("soft deadline reached: history [%s] not run", histString(h)))
+		return
+	}
 	run.Add("histories", 1)
 	ops, clean := c.partA(h)
 	run.Add("partA_failover_dumps", 2)
@@ -685,6 +694,10 @@ func (c *checker) history(dom domain, h []Step) {
 	}
 	run.Add("passive_ops_enumerated", int64(len(ops)))
 	for k := range ops {
+		if pastDeadline() {
+			run.NotExhaustive(fmt.Sprintf("soft deadline reached: fault positions %d..%d of history [%s] and later histories of this job not run", k, len(ops)-1, histString(h)))
+			return
+		}
 		run.Add("fault_cases", 1)
 		c.partBC(h, k, ops, dom.variants)
 	}
@@ -697,7 +710,7 @@ func finishEvidence(run *ev.Run, dom domain) {
 	run.Set("distinct_nontrivial", get("histories")+get("fault_cases_fired"))
 	run.Set("rule", "Part A: "+dom.desc+"; the set is prefix-closed, so every prefix of every history is checked; each history runs in its own OS process, then fresh processes dump the active side, fail over with fs.TriggerFailover and dump the passive side, and dump it again from one more fresh process. "+
 		"Part B: for every history, every k in [0, number of file operations with a path under the passive folder during the last step of the fault-free reference run): EIO on every passive-folder file operation from the k-th on (sticky) during the last step. "+
-		fmt.Sprintf("Part C: for every such case in which replication was reported off, each variant of %v: ReinstateFailedDrives with faults cleared, follow-up commits (add / updrem on the first store), then the active dump and the failover dump from a fresh process and from one more fresh process. ", dom.variants)+
+		fmt.Sprintf("Part C: for every such case in which replication was reported off, each variant of %v: ReinstateFailedDrives with faults cleared, follow-up commits (add / updrem on the first store), then a fresh process dumps the active side, fails over and dumps the passive side, and (quick: only for reinstate_in=fresh; thorough: always) one more fresh process dumps again. ", dom.variants)+
 		"distinct_nontrivial = histories + fault cases in which the injected fault actually fired (all tuples are distinct by construction).")
 	run.Assumption("sop.TaskRunner tasks run inline in launch order (vhook Inline) so that the file-operation sequence, and with it the fault index k, is deterministic; concurrency between replication tasks is not explored")
 	run.Assumption("L2 cache is the in-memory cache of each process (no Redis): every fresh process starts with a cold cache and reads the replication status from replstat.txt")
